@@ -1,3 +1,4 @@
+mod corrupt;
 mod crash;
 mod deep;
 mod disk;
